@@ -18,7 +18,7 @@ use crate::{
     op_reluctant_fixed::ReluctantFixed,
     op_repeat::Repeat,
     op_sequence::Sequence,
-    operation::{Operation, OperationControl, MATCHES_ZLS_ANYWHERE},
+    operation::{Operation, OperationControl, MATCHES_ZLS_ANYWHERE, MATCHES_ZLS_NEVER},
     re_flags::{Language, ReFlags},
     re_program::{ReProgram, OPT_HASBACKREFS},
 };
@@ -1089,6 +1089,10 @@ impl ReCompiler {
             if repeat_operation.min() == 0 {
                 return false;
             }
+        }
+        if op1.matches_empty_string() != MATCHES_ZLS_NEVER {
+            // op1 may match nothing, so what follows it matters too
+            return false;
         }
         let c0 = op0.get_initial_character_class(case_blind);
         let c1 = op1.get_initial_character_class(case_blind);
